@@ -84,7 +84,7 @@ def write_readme(results):
     rows = []
     for n in sorted(results):
         e = results[n]
-        if "checks" not in e:
+        if "checks" not in e or not os.path.exists(os.path.join(VERIF, "seeded", n, "meta.json")):
             continue
         meta = json.load(open(os.path.join(VERIF, "seeded", n, "meta.json")))
         own = e["checks"].get(e["property"], {})
@@ -99,4 +99,7 @@ def write_readme(results):
 
 
 if __name__ == "__main__":
-    main()
+    if "--readme" in sys.argv:
+        write_readme(json.load(open(os.path.join(VERIF, "seeded/RESULTS.json"))))
+    else:
+        main()
